@@ -128,10 +128,9 @@ def plan(tier):
     ]
     if tier != "quick":
         # (streams with negative integers / `$-1`, and arrays of two elements, give no verdict in 20 min through the
-        #  BytesMut-backed loop and are not scheduled)
+        #  BytesMut-backed loop and are not scheduled; nor is the split SimpleString stream — it is covered as a pipeline)
         streams += [
             ("bulk4", [bulk(4, "d0")]),
-            ("simple2", [simple(2, "s0")]),
             ("arr_empty", [array([])]),
             ("bulk2", [bulk(2, "d0")]),
         ]
